@@ -219,6 +219,25 @@ def run(ctx):
                     for e in n.elts:
                         if isinstance(e, ast.Tuple) and len(e.elts) == 2 and isinstance(e.elts[1], ast.Constant):
                             handled.add(e.elts[1].value)
+        # a loop over the key names themselves: `for longname in "primary_key", "foreign_key": if longname not in e: continue;
+        # e.pop(longname)` — every constant the loop variable ranges over is looked at / removed where the variable is
+        loop_handled, loop_removed = set(), set()
+        for g_, nm_ in views:
+            for n in iter_own(g_.node):
+                if not (isinstance(n, ast.For) and isinstance(n.target, ast.Name) and isinstance(n.iter, ast.Tuple) and n.iter.elts and all(isinstance(x, ast.Constant) and isinstance(x.value, str) for x in n.iter.elts)):
+                    continue
+                lv, consts = n.target.id, {x.value for x in n.iter.elts}
+                for x in ast.walk(n):
+                    if isinstance(x, ast.Compare) and isinstance(x.ops[0], (ast.In, ast.NotIn)) and isinstance(x.left, ast.Name) and x.left.id == lv and norm(x.comparators[0]) == nm_:
+                        loop_handled |= consts
+                    if isinstance(x, ast.Call) and isinstance(x.func, ast.Attribute) and norm(x.func.value) == nm_ and x.args and isinstance(x.args[0], ast.Name) and x.args[0].id == lv:
+                        if x.func.attr in ("pop", "get"):
+                            loop_handled |= consts
+                        if x.func.attr == "pop":
+                            loop_removed |= consts
+                    if isinstance(x, ast.Delete) and any(norm(t) == "{}[{}]".format(nm_, lv) for t in x.targets):
+                        loop_removed |= consts
+        handled |= loop_handled
         # keys that ARE the interface vocabulary need no folding
         passthrough = {"doc", "default", "typ"}
         ctx.count("column_keywords_written", len(written))
@@ -238,7 +257,7 @@ def run(ctx):
                         for e in ast.walk(expand_aliases(g_, n.iter)):
                             if isinstance(e, ast.Tuple) and len(e.elts) == 2 and isinstance(e.elts[1], ast.Constant):
                                 loop_longnames.add(e.elts[1].value)
-            removed = k in loop_longnames or any(
+            removed = k in loop_longnames or k in loop_removed or any(
                 (isinstance(n, ast.Call) and isinstance(n.func, ast.Attribute) and n.func.attr == "pop" and norm(n.func.value) == nm_ and n.args and isinstance(n.args[0], ast.Constant) and n.args[0].value == k)
                 or (isinstance(n, ast.Delete) and any(norm(t) == "{}[{!r}]".format(nm_, k) for t in n.targets))
                 for g_, nm_ in views
